@@ -41,4 +41,5 @@ def main(tier):
     chk.run("R-ATTRAGREE", V.attragree, cx.repo, floor=5)
     chk.run("R-TYPEREACH", T.typereach, cx.repo, cx.schema, cx.sites, floor=4)
     chk.run("R-ELEMSIZE", V.elemsize, cx.repo, cx.schema, cx.sites, floor=4)
+    chk.run("R-NULLORDER", V.nullorder, cx.repo, floor=8)
     return chk.finish()
